@@ -1069,3 +1069,17 @@ func TestTrace(t *testing.T) {
 		fmt.Fprintf(out, "end\n")
 	}
 }
+
+// TestConsts prints the engine's package constants (nanoseconds, compiler-evaluated through the hook) for the translator
+// in checks/C20.py.
+func TestConsts(t *testing.T) {
+	c := basic.VerifConstants()
+	names := make([]string, 0, len(c))
+	for k := range c {
+		names = append(names, k)
+	}
+	sort.Strings(names)
+	for _, k := range names {
+		fmt.Printf("CONST %s %d\n", k, c[k])
+	}
+}
